@@ -250,10 +250,120 @@ def _r1_scalar_decide(ctx, f, store, tally, loc, rowname, D, rets, ok, other, co
     return True
 
 
+def consensus_model(ctx):
+    """Molecule.get_consensus run by the abstract interpreter (numpy included) on model molecules: every multiset of one to three fragments whose calls at two
+    positions are A / C / N / none, in two insertion orders, plus a fragment whose extraction fails (ValueError).  Required: a position is reported iff one
+    base was called by strictly more fragments than any other (N calls never vote), with that base; the failing fragment is skipped, the others still count.
+    (ok, cases, witness) / None when outside the interpreted subset.  Cached per run."""
+    if hasattr(ctx, '_consensus_model'):
+        return ctx._consensus_model
+    from ..consteval import Raised, module_scope
+    ctx._consensus_model = None
+    try:
+        env = module_scope(ctx.ix, MOLECULE)
+        cls = env.get('Molecule')
+        f = cls.method('get_consensus')[0]
+    except Exception:
+        return None
+    opts = [dict(zip((1, 2), c)) for c in itertools.product(('A', 'C', 'N', None), repeat=2)]
+    frs = {f'f{i}': {('c', p_): (b_, 30 if b_ != 'N' else 0) for p_, b_ in o.items() if b_ is not None} for i, o in enumerate(opts)}
+
+    class Mol(list):
+        pass
+
+    def hook(ev, call, env_):
+        if isinstance(call.func, ast.Attribute) and call.func.attr in ('get_consensus', 'has_R1', 'has_R2'):
+            try:
+                base = ev.ev(call.func.value, env_)
+            except Unfoldable:
+                return NotImplemented
+            if base == 'bad':
+                if call.func.attr == 'get_consensus':
+                    raise Raised('ValueError', 'This method only works for inwards facing reads')
+                return True
+            if isinstance(base, str) and base in frs:
+                return dict(frs[base]) if call.func.attr == 'get_consensus' else True
+        return NotImplemented
+    n = 0
+    sc = dict(cls.scope)
+    sc['__class__'] = cls
+    try:
+        for size in (1, 2, 3):
+            for combo in itertools.combinations_with_replacement(sorted(frs), size):
+                for order in ((combo, combo[::-1]) if size > 1 else (combo,)):
+                    for with_bad in ((False, True) if size == 2 else (False,)):
+                        n += 1
+                        members = list(order)
+                        if with_bad:
+                            members.insert(1, 'bad')
+                        got = run_function(f, [Mol(members)], env=sc, call_hook=hook, budget=200000)
+                        want = {}
+                        for p_ in (1, 2):
+                            votes = {}
+                            for m_ in order:
+                                c_ = frs[m_].get(('c', p_))
+                                if c_ is not None and c_[0] != 'N':
+                                    votes[c_[0]] = votes.get(c_[0], 0) + 1
+                            if votes:
+                                top = max(votes.values())
+                                win = [b_ for b_, k_ in votes.items() if k_ == top]
+                                if len(win) == 1:
+                                    want[('c', p_)] = win[0]
+                        got = {tuple(k_): v_ for k_, v_ in dict(got).items()}
+                        if got != want:
+                            ctx._consensus_model = (False, n, {'fragment calls (position -> base)': [{k_[1]: v_[0] for k_, v_ in frs[m_].items()} if m_ != 'bad' else 'raises ValueError' for m_ in members],
+                                                               'consensus returned': {k_[1]: v_ for k_, v_ in got.items()}, 'strict majority': {k_[1]: v_ for k_, v_ in want.items()}})
+                            return ctx._consensus_model
+    except (Unfoldable, Raised):
+        return None
+    except Exception:
+        return None
+    ctx._consensus_model = (True, n, None)
+    return ctx._consensus_model
+
+
+def _consensus_model_or_structural(ctx, rid, structural):
+    """the structural reading of Molecule.get_consensus decides; where it cannot follow a restructured method the interpreted model (consensus_model) decides the
+    obligations about Molecule.get_consensus instead"""
+    from ..core import Ctx, VIOLATED, UNDECIDED
+    sub = Ctx(ctx.ix, 'C13', ctx.tier)
+    err = None
+    try:
+        structural(sub)
+    except AnalysisError as e_:
+        err = e_
+    except Exception as e_:
+        err = AnalysisError(f'structural reading failed ({type(e_).__name__}: {e_})')
+    for k_, v_ in sub.counters.items():
+        ctx.counters[k_] = (ctx.counters.get(k_, set()) | v_) if isinstance(v_, set) else ctx.counters.get(k_, 0) + v_
+    for k_, v_ in getattr(sub, 'exhaustive', {}).items():
+        ctx.exhaustive[k_] = v_
+    open_ = [o for o in sub.obligations if o.status in (VIOLATED, UNDECIDED) and 'Molecule.get_consensus' in o.construct and 'fragment-calls-not-shared' not in o.construct and 'result-from-tally' not in o.construct]
+    if err is None and not open_:
+        ctx.obligations.extend(sub.obligations)
+        return
+    m = consensus_model(ctx)
+    if m is None:
+        ctx.obligations.extend(sub.obligations)
+        if err is not None:
+            raise err
+        return
+    ok, n, wit = m
+    f = ctx.fn(MOLECULE, FN)
+    ctx.counters['interpreted_cases'] += n
+    if ok:
+        ctx.obligations.extend([o for o in sub.obligations if o not in open_])
+        ctx.emit(rid, True, MOLECULE, f, f'Molecule.get_consensus interpreted on {n} model molecules (1-3 fragments, calls A / C / N / none at two positions, two insertion orders, a failing fragment): a position is reported '
+                 f'iff one base has strictly the most votes, N never votes, a failing fragment is skipped (the structural reading did not follow the restructured method)', key='consensus-model')
+    else:
+        ctx.obligations.extend(sub.obligations)
+        ctx.emit(rid, False, MOLECULE, f, f'Molecule.get_consensus on a model molecule: {wit}', key='consensus-model', witness=wit, what='get_consensus: the reported consensus is not the strict majority call')
+
+
 @rule('C13', 'C13-R1', 'the consensus is built only from positions where the maximum vote is attained exactly once: the mask indexing both '
                        'returns equals "unique maximum" on every abstract vote row')
 def r1(ctx):
-    return _r1_impl(ctx)
+    _consensus_model_or_structural(ctx, 'C13-R1', _r1_impl)
 
 
 def _r1_all_results_from_the_tally(ctx, f):
@@ -413,6 +523,10 @@ def _r1_impl(ctx):
 @rule('C13', 'C13-R2', 'N calls never vote; each fragment adds exactly 1 to exactly one counter per position; the accumulator is only '
                        'incremented (commutative) and never read inside the loop; a failing fragment is skipped without stopping the tally')
 def r2(ctx):
+    _consensus_model_or_structural(ctx, 'C13-R2', _r2_structural)
+
+
+def _r2_structural(ctx):
     ix = ctx.ix
     f = ctx.fn(MOLECULE, FN)
     outer = [l for l in f.body if isinstance(l, ast.For) and src(l.iter) == 'self']
@@ -521,10 +635,15 @@ def r4(ctx):
     bad = []
     n = 0
     try:
+        from ..consteval import module_scope
+        genv = module_scope(ctx.ix, SEQUTILS)       # private helpers / constants of the module the function leans on
+    except Exception:
+        genv = {}
+    try:
         for c1 in calls:
             for c2 in calls:
                 n += 1
-                got = run_function(g, [c1, c2])
+                got = run_function(g, [c1, c2], env=genv)
                 present = [c for c in (c1, c2) if c is not None]
                 if not present:
                     want = ('N', 0)
